@@ -79,6 +79,9 @@ FAMILIES = {
                     Outs=["OK"], MaxConn=2, MaxCalls=6, StalePick=0, Pre=7),
     "deep-fb3": fam(CfgMin=2, CfgMax=2, CfgWm=3, CfgFb=True, Keys=[1], AVs=[], CfgKinds=[], States=["READY", "TF"], Methods=["BIND", "BOUND", "UNBIND"],
                     Outs=["OK"], MaxConn=2, MaxCalls=7, StalePick=0, Pre=8),
+    # minSize above maxSize: the pool starts with minSize channels and must never grow
+    "minmax": fam(CfgMin=3, CfgMax=2, CfgWm=1, Keys=[1], AVs=[1], States=["READY", "TF"], Methods=["PLAIN"], Outs=["OK"], MaxConn=5, MaxCalls=6,
+                  StalePick=1, Pre=5),
     "deep-fb4": fam(CfgMin=2, CfgMax=2, CfgWm=3, CfgFb=True, CfgUc=1, CfgUms=2, Keys=[1], AVs=[], CfgKinds=[], States=["READY", "TF"], Methods=["BOUND", "PLAIN"],
                     Outs=["OK"], Dls=[0], Advs=[], MaxConn=4, MaxCalls=5, StalePick=0, Pre=9),
     "deep-refresh": fam(CfgMin=1, CfgMax=2, CfgWm=1, CfgUc=1, CfgUms=2, Keys=[1], AVs=[1, 2], States=["READY", "TF", "SHUTDOWN"], Methods=["PLAIN"],
@@ -97,7 +100,7 @@ FAMILIES = {
 PROP_FAMILIES = {
     "C01": ["deep-aff", "deep-affref", "deep-fb3", "deep-fb2", "deep-fb4", "affinity1", "refresh", "deep-refbound", "affinity", "fallbackrefresh", "spanner"],
     "C02": ["deep-load", "growth2", "deep-fb3", "affinity", "refresh", "deep-affref", "rr", "spanner"],
-    "C03": ["growth", "growth2", "faults", "refresh", "deep-refresh", "spanner"],
+    "C03": ["growth", "growth2", "minmax", "faults", "refresh", "deep-refresh", "spanner"],
     "C04": ["states", "refresh", "deep-refresh", "faults", "spanner"],
     "C05": ["faults", "deep-refresh", "faultsfb", "refreshfail", "deep-refbound", "spanner"],
     "C06": ["faultsfb", "faults", "rr", "refreshfail", "deep-rr", "spanner"],
@@ -335,11 +338,12 @@ RANDOM_COMBOS = {
     "rr-ref":    (C(2, 3, 2, rr=True, uc=1, ums=2, fb=True), "rr"),
     "mixed":     (C(2, 3, 2, fb=True, uc=1, ums=2, rr=True), "mixed"),
     "defaults":  (C(0, 0, 0), "mixed"),
+    "minmax":    (C(3, 2, 1), "load"),
 }
 PROP_COMBOS = {
     "C01": ["aff", "aff-ref", "aff-fb", "aff-wide", "mixed"],
     "C02": ["load", "load-ref", "load-grow", "aff-ref", "mixed"],
-    "C03": ["load-grow", "faults-min", "aff", "mixed"],
+    "C03": ["load-grow", "faults-min", "minmax", "aff", "mixed"],
     "C04": ["mixed", "faults", "ref", "load-ref"],
     "C05": ["faults", "faults-min", "mixed", "rr-ref"],
     "C06": ["faults-min", "faults", "rr", "mixed"],
